@@ -7,8 +7,9 @@ import subprocess
 ID = "C07"
 LEVEL = "other"
 from lib.core import existing_modules
-LEAN_MODULES = existing_modules(["Sonic.Props.C07"]) + ["Sonic.Spec.Json"]
-REQUIRED_THEOREMS = (["Sonic.Props.C07." + n for n in ["C07_tables", "C07_checker_sound", "C07_zero", "C07_integer_path"]]) if "Sonic.Props.C07" in LEAN_MODULES else []  # TODO strict once the proofs have landed
+LEAN_MODULES = ["Sonic.Props.C07"]
+REQUIRED_THEOREMS = ["Sonic.Props.C07." + n for n in ["C07_tables", "C07_exponents", "C07_checker_sound", "C07_inInterval", "C07_zero", "C07_integer_path",
+                                                         "C07_format", "C07_decimal_path", "C07_output"]]
 CONFIGS = [("avx2", "prod"), ("sse", "prod"), ("avx2", "san")]
 CONFIGS_THOROUGH = CONFIGS + [("dyn", "prod")]
 RULE = ("bit patterns: for each of the 2046 finite binary exponents the smallest significand (irregular boundary), +1, the largest, and "
